@@ -9,12 +9,13 @@ warnings.simplefilter("ignore")
 from ..common import mkrnd
 
 ENGINE_ID = 17
-N = {"quick": 1500, "thorough": 40000}
+N = {"quick": 1500, "thorough": 120000}
 RULE = ("random csr.Builder histories: aw 1-8, dw in {7,8,16,24,32}, granularity any divisor (3% invalid geometry), "
         "0-10 real csr.Register objects of width 0..4*dw+3, ~40% explicit offsets (slots after the cursor, touching, "
         "overlapping, at the top of the address space, non-multiples, negative, non-int), Cluster/Index nesting <= 3 from a "
         "collision-prone name pool, duplicate adds, adds after freeze, 1-3 as_memory_map calls; kinds valid/mixed/tight/"
-        "names/wild; non-trivial = accepted geometry, >= 2 accepted registers and an as_memory_map call that returns "
+        "names/wild, plus kind small = the enumeration of all sequences of <= 2 adds over 4 widths x 6 offsets x 3 names "
+        "at aw 2, dw 8, granularity 4 (5256 cases: walked completely by the thorough tier, sampled by quick); non-trivial = accepted geometry, >= 2 accepted registers and an as_memory_map call that returns "
         "a map with >= 2 resources or refuses the layout; distinct by hash of the case")
 EXC = {"ValueError": 1, "TypeError": 2, "KeyError": 3, "AssertionError": 4}
 NAMES = ["a", "b", "ab", "c", "0", "1", "reg", "x"]
@@ -47,9 +48,41 @@ def gen_width(rnd, dw):
     return rnd.randint(0, 4 * dw + 3)
 
 
+# small scope, enumerated: aw 2, dw 8, granularity 4 (two granules per word); every sequence of <= 2 adds
+# over SMALL_W x SMALL_OFF x SMALL_NAME followed by as_memory_map (5256 cases), then random longer ones
+SMALL_W = [0, 8, 9, 17]
+SMALL_OFF = [None, 0, 2, 3, 4, 6]
+SMALL_NAME = ["a", "b", "a/b"]
+SMALL_LETTERS = [(w, o, n) for w in SMALL_W for o in SMALL_OFF for n in SMALL_NAME]
+SMALL_TOTAL = len(SMALL_LETTERS) + len(SMALL_LETTERS) ** 2
+
+
+def small_case(k, rnd):
+    L = len(SMALL_LETTERS)
+    if k < L:
+        seq = [k]
+    elif k < SMALL_TOTAL:
+        seq = list(divmod(k - L, L))
+    else:
+        seq = [rnd.randrange(L) for _ in range(rnd.choice([3, 3, 4]))]
+    regs, ops = [], []
+    for i, x in enumerate(seq):
+        w, off, n = SMALL_LETTERS[x]
+        regs.append({"w": w, "shape": "r"})
+        if n == "a/b":
+            ops.append(["cluster", "a", [["add", "b", i, off]]])
+        else:
+            ops.append(["add", n, i, off])
+    ops.append(["map"])
+    return {"engine": "builder", "kind": "small", "cfg": {"aw": 2, "dw": 8, "g": 4}, "regs": regs, "ops": ops}
+
+
 def gen_case(seed, tier, idx):
     rnd = mkrnd(seed, "builder", idx)
-    kind = ["valid", "mixed", "tight", "names", "wild", "mixed"][idx % 6]
+    kind = ["valid", "mixed", "tight", "names", "wild", "small", "mixed"][idx % 7]
+    if kind == "small":
+        # thorough walks the enumeration in order (complete for <= 2 adds); quick samples it
+        return small_case(idx // 7 if tier == "thorough" else rnd.randrange(SMALL_TOTAL + 800), rnd)
     dw = rnd.choice(DWS)
     g = rnd.choice(divisors(dw))
     if kind == "tight":
